@@ -138,8 +138,14 @@ fn run_random(tracer: &Tracer, rng: &mut StdRng, nops: usize, nreaders: usize, r
     }
     for op in gen_ops(rng, nops) {
         w.exec(&op);
+        // under the lazy policy (merges only while a delete is pending) let the merge publish
+        // before the next operation, so that the readers look at what it published
+        let lazy = cfg.merge == "lazy2";
+        if lazy {
+            vh::core::settle_merges(150);
+        }
         // let the readers get a few reloads in between the writer's operations
-        let target = ctl.reloads.load(Ordering::SeqCst) + 1;
+        let target = ctl.reloads.load(Ordering::SeqCst) + if lazy { 3 } else { 1 };
         let t0 = std::time::Instant::now();
         while ctl.reloads.load(Ordering::SeqCst) < target && t0.elapsed() < Duration::from_millis(20) {
             std::thread::yield_now();
